@@ -4,6 +4,7 @@ import re
 
 import common
 from common import Outcome, LeanDriver
+from props import _c12ext
 
 ID = "C12"
 PROPS = ["Invoke/Props/C12.lean"]
@@ -13,12 +14,23 @@ GENERATED = []
 RULE = ("cases = (fixed-width pattern, text, chunking[, sentinel, second watcher]); quick: all texts of length <=5 over "
         "{a,b,\\n} x 10 patterns x all 2^(n-1) chunkings through the real Responder, plus random longer texts through "
         "the real Runner threads (stdout and stderr, two watchers); a case is non-trivial when the whole text contains "
-        "at least one occurrence of the pattern; distinct = distinct (pattern,text,chunking) triples")
+        "at least one occurrence of the pattern; distinct = distinct (pattern,text,chunking) triples.  LONG family "
+        "(_c12ext): texts of 1-10k characters around occurrences spanning >1000 (some >4096) characters - fixed-width "
+        "`O.{k}C` (compared with the model) and variable-width `O[^..]*C`, `O.*?C`, `O.*C` (oracle only, constrained where "
+        "the one-shot reference is the same at every read boundary) - read sizes 1/5/7/64/100/333/999/1000/1001/1500/"
+        "whole/one cut/random, through Responder.submit, FailingResponder.submit (long sentinel) and the real Runner "
+        "(read_chunk_size default/1/5/7/100/999/1001/2000, stdout and stderr, two watchers).  HIST family: 2-4 sudo/run "
+        "commands on ONE Context (configured watchers empty or not, watchers=/password= kwargs, read_chunk_size 1/5/1000): "
+        "every command's stdin = what its own watchers demand on its own output; config.run.watchers unchanged; "
+        "a watchers= list is built fresh for every command")
 TRUSTED = ["Lean 4.33 kernel", "axioms propext/Classical.choice/Quot.sound only",
            "harness/props/c12.py correspondence + canonicalisation", "CPython re for fixed-width patterns (modelled)",
            "model Invoke/Model/Watcher.lean hand-written, tied by correspondence on every run"]
 ASSUMPTIONS = ["patterns are fixed-width sequences of character classes (variable-width regexes are outside the theorem; "
-               "no online responder can be chunk-independent for them)",
+               "no online responder can be chunk-independent for them in general; they are checked by the oracle on the "
+               "cases where re.finditer on the text seen at every read boundary yields an initial part of its result on the whole text)",
+               "histories: watcher state is per thread and every command reads its output in new threads (modelled as: every "
+               "watcher starts every command fresh); a watchers= kwarg list is not re-used by the caller",
                "Python re.findall/finditer semantics for this family are as modelled by `starts`"]
 
 # pattern = list of classes: ("A",) any | ("L", ch) | ("O", "ab")
@@ -191,6 +203,11 @@ def sudo_case(case):
 
 def replay(case):
     kind = case["kind"]
+    if kind == "long":
+        return _c12ext.replay_long(case)
+    if kind == "hist":
+        why = _c12ext.check_hist(case)
+        return why is None, why or "ok"
     if kind == "sudo":
         try:
             why = common.with_timeout(sudo_case, 30, case)
@@ -311,11 +328,17 @@ def run(ctx):
             ok, why = replay(c)
             if not ok:
                 out.fail(c, why)
+    # one occurrence spanning far more than any read (Responder, FailingResponder, real Runner)
+    _c12ext.run_long(ctx, out, drv)
+    # histories of sudo/run commands on one Context
+    _c12ext.run_hists(ctx, out, drv)
     return out
 
 LEVEL_TEXT = ("Lean 4 proof (responder_chunk_invariant, responder_chunkings_agree, never_reanswers) that for every fixed-width "
               "pattern, every text and every chunking the modelled Responder answers exactly the non-overlapping occurrences "
               "of the whole text; the model is tied to invoke.watchers / Runner.respond on every run by a differential "
               "correspondence check (exhaustive small scope + random, also through the real Runner threads) and a direct oracle "
-              "(re.findall on the whole text)")
+              "(re.findall on the whole text); the same for occurrences spanning thousands of characters and many reads "
+              "(responder_span_exceeds_reads) and for histories of sudo/run commands on one Context "
+              "(history_determined_by_own_text, history_earlier_commands_irrelevant, history_leaves_configuration)")
 TECHNIQUE = "Lean 4 theorem over all patterns/texts/chunkings (induction on chunks via starts_append) + model/implementation correspondence"
